@@ -1404,6 +1404,16 @@ func init() {
 			}
 			return Slice{A: out}
 		}
+		if p.h.Params["rotating_peer_order"] == 1 {
+			// a FAIR random source for recovery scenarios: the j-th draw is the identity rotated by j, so that
+			// every peer comes first again and again (stated as an assumption of the harness)
+			j, _ := p.natives["permdraws"].(int)
+			p.natives["permdraws"] = j + 1
+			for i := 0; i < n; i++ {
+				out = append(out, BVC(uint64((i+j)%n), 64))
+			}
+			return Slice{A: out}
+		}
 		if n > 1 {
 			p.natives["randperm"] = true
 		}
